@@ -187,7 +187,9 @@ class SFixed(Template[_FixedTemplateArg], AssignableType):
                 zeros = -self._exp
                 static_assert(zeros >= 0)
 
-                self._val = _qualifier_(raw_type, val.resize(self._width, zeros=zeros))
+                self._val = _qualifier_[raw_type](
+                    val.resize(self._width, zeros=zeros)
+                )
             elif instance_check(val, Unsigned):
                 zeros = -self._exp
                 static_assert(zeros >= 0)
